@@ -270,6 +270,10 @@ def run(ctx: Ctx):
     ops_d = [n for n in own_nodes(sv.node) if isinstance(n, (ast.Assign, ast.AnnAssign)) and ast.unparse(n.targets[0] if isinstance(n, ast.Assign) else n.target) == "destroy_ops"]
     used = ast.unparse(ops_d[0].value) if ops_d else ""
     ctx.ob("C18-O4", "R18 table", sv, "the search uses the exported removal and insertion operators", all(x in ast.unparse(sv.node) for x in REMOVALS + INSERTIONS), "", node=sv.node)
+    fp = ctx.func("vrp", "VRPState.from_problem")
+    from .sat_common import _need as _need2
+
+    _need2(ctx, "C18-O3", "R14 GATE", fp, "customer ids are checked to be the customers' positions before anything is built from them (routes, distances and arrival times go by position, the unassigned set by id)", ["if [c.id for c in customers] != list(range(n)):\n        raise ValueError", "unassigned = {c.id for c in customers if c.id != 0}"], "with ids that are not 1..n in input order a customer is in the unassigned set under one number and routed under another: it ends up on no route and not unassigned, and no penalty is charged for it")
     generic_sweeps(ctx)
 
 
@@ -282,6 +286,11 @@ JS, VR = "solvor/job_shop.py", "solvor/vrp.py"
 def _v_single_stop_arrival_shortcut(tree):
     g = M.find_func(tree, "VRPState.compute_arrival_times")
     M.replace_stmt(g, lambda s: isinstance(s, ast.Assign) and M.src_is(s.targets[0], "times"), lambda s: M.stmts("if len(route) == 1:\n    return [self.dist(0, route[0])]") + [s])
+
+
+def _v_ids_unchecked(tree):
+    g = M.find_func(tree, "VRPState.from_problem")
+    M.replace_stmt(g, lambda s: isinstance(s, ast.If) and M.src_has(s.test, "c.id for c in customers"), [])
 
 
 def _v_route_removal_original(tree):
@@ -392,6 +401,7 @@ VARIANTS = [
     M.Variant("zero-duration fast path skips the clock updates (seed C18-A)", JS, _v_zero_duration_fast_path, "C18-O1"),
 
     M.Variant("compute_arrival_times answers a one-stop route without the waiting rule (seed C18-J)", VR, _v_single_stop_arrival_shortcut, "C18-O4"),
+    M.Variant("customer ids are used without checking that they are the positions (original defect)", VR, _v_ids_unchecked, "C18-O3"),
     M.Variant("route_removal clears one route only (original defect)", VR, _v_route_removal_original, "C18-O2"),
     M.Variant("sync_aware_insertion overwrites unassigned (original defect)", VR, _v_sync_overwrite, "C18-O2"),
     M.Variant("worst_removal edits its argument", VR, _v_no_copy, "C18-O2"),
